@@ -49,6 +49,11 @@ THEOREMS = [
     "OllamaVerif.C06.setCausal_covers",
     "OllamaVerif.C06.visE_false",
     "OllamaVerif.C06.forward_exposes_stored_history",
+    "OllamaVerif.C06.forward_exposes_stored_history_defrag",
+    "OllamaVerif.C06.forward_exposes_all_histories",
+    "OllamaVerif.C06.defrag_abs_perm",
+    "OllamaVerif.C06.placeBase_abs_perm",
+    "OllamaVerif.Causal.defragCore_perm",
     "OllamaVerif.C06.startForward_put_abs_perm",
     "OllamaVerif.C06.forward_abs_perm",
     "OllamaVerif.C06.slideSeq_abs",
